@@ -259,6 +259,12 @@ Json EngineGen::generate(uint64_t seed, const runner::GenOptions& opt, const Eng
     else if (rng.chance(600)) hist.push(Json::obj().set("op", "set").set("k", leaves[rng.below(leaves.size())]).set("v", util::hex(spellValue(rng, vcounter++, valStyle))));
     Json op = Json::obj();
     op.set("op", "build").set("k", mainTarget);
+    if (rng.chance(350)) {
+      // concurrent cancellation calls belong to C06 too: only foreign-thread kinds, outcome comparison is skipped then
+      Json c = Json::obj();
+      c.set("kind", (int64_t)rng.range(1, 3)).set("n", (int64_t)rng.below(40)).set("yields", (int64_t)rng.below(30)).setb("twice", rng.chance(200));
+      op.set("cancel", c);
+    }
     hist.push(op);
     builds++;
   }
@@ -379,6 +385,7 @@ struct Run : public BuildEngineDelegate, public basic::ExecutionQueueDelegate {
   bool restartEveryBuild = false;
   bool dropRestarts = false;
   bool allowCycleBreak = false;
+  bool ignoreCancel = false;
 
   // engine
   std::unique_ptr<BuildEngine> engine;
@@ -1111,6 +1118,7 @@ void Run::load() {
     killBuild = (int)kj->getn("build");
     killAt = kj->getn("n", -1);
   }
+  ignoreCancel = cfg->getb("ignore_cancel");
   restartEveryBuild = cfg->getb("restart_every_build");
   dropRestarts = cfg->getb("drop_restarts");
   for (auto& j : plan.geta("rules")) {
@@ -1267,7 +1275,8 @@ void Run::opBuild(const Json& op) {
   cancelDone = true;
   jobsSeen = 0;
   cancel = CancelSpec();
-  if (const Json* c = op.find("cancel")) {
+  const Json* c = ignoreCancel ? nullptr : op.find("cancel");
+  if (c) {
     cancel.on = true;
     cancel.kind = (int)c->getn("kind");
     cancel.n = (int)c->getn("n");
@@ -1916,7 +1925,7 @@ public:
     for (auto& op : plan.geta("history"))
       if (op.gets("op") == "build") nBuilds++;
     RunResult total;
-    Outcome base = runOnce(withConfig(plan, {{"force_sync", Json::boolean(true)}, {"queue", Json::str("inline")}}), false);
+    Outcome base = runOnce(withConfig(plan, {{"force_sync", Json::boolean(true)}, {"queue", Json::str("inline")}, {"ignore_cancel", Json::boolean(true)}}), false);
     if (base.res.failed()) {
       base.res.detail = "(canonical synchronous execution)\n" + base.res.detail;
       return base.res;
@@ -1950,6 +1959,10 @@ public:
       if (base.summaries.empty() || o.summaries.size() != base.summaries.size()) continue;
       const auto& p = base.summaries.back();
       const auto& q = o.summaries.back();
+      if (q.cancelled) {
+        total.counters["schedules_with_cancellation"]++;
+        continue;
+      }
       std::string what;
       if (p.ok != q.ok || p.result != q.result) what = "result";
       else if (p.executed != q.executed) what = "set of executed rules";
@@ -1986,6 +1999,9 @@ EngineFeatures featuresFor(const std::string& property, const runner::GenOptions
   }
   if (property == "C01" || property == "C02") {
     f.asyncPermille = 300;
+    // earlier builds of a history may have been cancelled (or failed): part of "any sequence of earlier builds"
+    f.cancel = true;
+    f.cancelPermille = 120;
   } else if (property == "C03") {
     f.dbPermille = 1000;
     f.numericKeys = true;
